@@ -775,3 +775,58 @@ Qed.
 (* the repaired entry point treats the same pair as an ordinary one *)
 Lemma witness_new : entry wY wX true = core wY wX true.
 Proof. vm_compute. reflexivity. Qed.
+
+(* ---------------------------------------------------------------------- *)
+(* C01 as worded: the SCORE (eval_R of the transcription's term structure) has the listed properties *)
+
+Theorem score_nonneg Y X : length Y = length X -> (0 < length X)%nat -> 0 <= eval_R (entry Y X false).
+Proof. intros. rewrite plugin_identity by assumption. apply plugin_nonneg; assumption. Qed.
+
+Theorem score_const_l Y X a : length Y = length X -> (0 < length X)%nat -> constant a Y -> eval_R (entry Y X false) = 0.
+Proof. intros. rewrite plugin_identity by assumption. apply (plugin_const_l Y X a); assumption. Qed.
+
+Theorem score_const_r Y X a : length Y = length X -> (0 < length X)%nat -> constant a X -> eval_R (entry Y X false) = 0.
+Proof. intros. rewrite plugin_identity by assumption. apply (plugin_const_r Y X a); assumption. Qed.
+
+Theorem score_le_min Y X : length Y = length X -> (0 < length X)%nat -> eval_R (entry Y X false) <= Rmin (H Y) (H X).
+Proof. intros. rewrite plugin_identity by assumption. apply plugin_le_min; assumption. Qed.
+
+Theorem score_self Y : (0 < length Y)%nat -> eval_R (entry Y Y false) = H Y.
+Proof. intros. rewrite plugin_identity by auto. apply plugin_self; assumption. Qed.
+
+(* ---------------------------------------------------------------------- *)
+(* C02 with the flag on holds exactly OFF the diagonal: recoding only one side of an identical pair switches the
+   correction back on (the pair is no longer element-wise identical), and the score changes from H(Y) to the corrected one *)
+
+Definition dY : list Z := [0; 1; 0; 1; 2; 2]%Z.
+
+Lemma diag_value : eval_R (entry dY dY true) = ln 3.
+Proof.
+  assert (Et : entry dY dY true = mkT 6 [2; 2; 2]%Z [mkS 2 [2; 0; 0]%Z [1; 0; 1]%Z; mkS 2 [0; 2; 0]%Z [0; 1; 1]%Z; mkS 2 [0; 0; 2]%Z [1; 1; 0]%Z] false)
+    by (vm_compute; reflexivity).
+  rewrite Et. unfold eval_R, cond_entropy, full_entropy.
+  cbn [t_n t_classes t_strata t_corr s_cnt s_real s_spoof rsum fold_right Z.eqb].
+  replace (2 / 2) with 1 by lra. rewrite ln_1.
+  replace (2 / 6) with (/ 3) by lra. rewrite ln_Rinv by lra. lra.
+Qed.
+
+Lemma offdiag_value : eval_R (entry dY (map (Z.add 10) dY) true) = ln 2.
+Proof.
+  assert (Et : entry dY (map (Z.add 10) dY) true = mkT 6 [2; 2; 2]%Z [mkS 2 [2; 0; 0]%Z [1; 0; 1]%Z; mkS 2 [0; 2; 0]%Z [0; 1; 1]%Z; mkS 2 [0; 0; 2]%Z [1; 1; 0]%Z] true)
+    by (vm_compute; reflexivity).
+  rewrite Et. unfold eval_R, cond_entropy, full_entropy.
+  cbn [t_n t_classes t_strata t_corr s_cnt s_real s_spoof rsum fold_right Z.eqb].
+  replace (2 / 2) with 1 by lra. rewrite ln_1.
+  replace (1 / 2) with (/ 2) by lra. rewrite ln_Rinv by lra. lra.
+Qed.
+
+Theorem diag_relabel_refuted :
+  exists (Y : list Z) (g : Z -> Z),
+    (0 < length Y)%nat /\ inj_on g Y /\
+    eval_R (entry Y Y true) = ln 3 /\ eval_R (entry Y (map g Y) true) = ln 2 /\
+    eval_R (entry Y (map g Y) true) < eval_R (entry Y Y true).
+Proof.
+  exists dY, (Z.add 10). split; [simpl; lia|]. split; [intros a b _ _ E; lia|].
+  split; [exact diag_value|]. split; [exact offdiag_value|].
+  rewrite diag_value, offdiag_value. apply ln_increasing; lra.
+Qed.
